@@ -35,9 +35,21 @@ template<> struct ItemIO<double> {
   static std::string render(double x) { return x == 0.0 ? vh::hex_f64(0.0) : vh::hex_f64(x); }
 };
 
-template<typename T>
+template<> struct ItemIO<std::string> {
+  static std::string parse(const std::string& s) { return s; }
+  static std::string render(const std::string& x) { return x; }
+};
+
+// a custom (non-default) comparator for a non-arithmetic item type: shorter strings first, then lexicographic
+struct LengthFirst {
+  bool operator()(const std::string& a, const std::string& b) const {
+    return a.size() < b.size() || (a.size() == b.size() && a < b);
+  }
+};
+
+template<typename T, typename C = std::less<T>>
 struct Runner {
-  using Sk = quantiles_sketch<T>;
+  using Sk = quantiles_sketch<T, C>;
   using IO = ItemIO<T>;
   std::map<int, std::unique_ptr<Sk>> objs;
   Source src;
@@ -194,16 +206,18 @@ struct Runner {
 };
 
 int main() {
-  std::unique_ptr<Runner<int64_t>> ri; std::unique_ptr<Runner<double>> rf;
+  std::unique_ptr<Runner<int64_t>> ri; std::unique_ptr<Runner<double>> rf; std::unique_ptr<Runner<std::string, LengthFirst>> rs;
   return vh::run_loop([&](const std::vector<std::string>& w) -> std::string {
     if (w[0] == "T" && w.size() == 2) {
-      ri.reset(); rf.reset();
+      ri.reset(); rf.reset(); rs.reset();
       if (w[1] == "i64") { ri.reset(new Runner<int64_t>()); return "T ok"; }
       if (w[1] == "f64") { rf.reset(new Runner<double>()); return "T ok"; }
+      if (w[1] == "str") { rs.reset(new Runner<std::string, LengthFirst>()); return "T ok"; }
       return "bad-op";
     }
     if (ri) return ri->step(w);
     if (rf) return rf->step(w);
+    if (rs) return rs->step(w);
     return "bad-op";
   });
 }
